@@ -37,7 +37,8 @@ def replay(pid, path):
 
 def _c20():
     import parser as pk
-    return {"builders": [pk.build], "level": "other", "explanation": "cursor coordinate lemmas",
+    import locations as lo
+    return {"builders": [pk.build, lo.build], "level": "other", "explanation": "cursor coordinate lemmas",
             "replay_fn": pk.replay_fn, "replay_file_fn": pk.replay_file}
 
 
